@@ -1078,3 +1078,39 @@ def explore(harness, max_paths=64, branch_timeout_ms=4000):
         finally:
             CTX = None
     return out, (not stack), aborted
+
+
+def selftest_interp(seed=0, trials=60):
+    """validate the fork-tree model of numpy.interp against numpy itself on seeded concrete inputs
+    (increasing and doubled nodes, NaN / clamped ends); returns the number of comparisons, raises on mismatch"""
+    import random
+    rng = random.Random(seed)
+    n_cmp = 0
+    for _ in range(trials):
+        n = rng.randint(1, 7)
+        xp = sorted(rng.choice([0., 1., 2., 2., 3.5, 4., 4., 5., 7.]) for _ in range(n))
+        fp = [rng.uniform(-5, 5) for _ in range(n)]
+        for x in (rng.choice(xp), rng.uniform(-1, 8), xp[0], xp[-1]):
+            left = rng.choice([None, float('nan')])
+            right = rng.choice([None, 7.0])
+            want = float(np.interp(x, xp, fp, left=left, right=right))
+
+            def h():
+                X = SymReal(z3.Real('x_selftest'))
+                ctx().add('assumptions', X.t == qval(x))
+                return sym_interp(X, np.array(xp), np.array(fp), left, right)
+            paths, _, _ = explore(h)
+            r = paths[0].result
+            if r is SymNaN:
+                got = float('nan')
+            else:
+                s_ = z3.Solver()
+                s_.add(z3.Real('x_selftest') == qval(x))
+                s_.check()
+                v = s_.model().eval(r.t, model_completion=True)
+                got = float(Fraction(v.numerator_as_long(), v.denominator_as_long()))
+            n_cmp += 1
+            if not ((math.isnan(want) and math.isnan(got)) or abs(want - got) <= 1e-9 * max(1.0, abs(want))):
+                raise HarnessError('interp model disagrees with numpy.interp: xp=%r fp=%r x=%r left=%r right=%r: numpy %r model %r'
+                                   % (xp, fp, x, left, right, want, got))
+    return n_cmp
